@@ -9,4 +9,5 @@ CONSTANTS
 SPECIFICATION Spec
 INVARIANTS TypeOK TagIsPresented NoForeignInput DownOnlyToSameID OneAcceptPerSession NoTokenNoConn SetIsSanitised RemoteAddrRight
 
+PROPERTIES SessionPersists
 CHECK_DEADLOCK FALSE
